@@ -305,8 +305,26 @@ TsAddWhy(r) ==
      ELSE IF ~TsResIs(r.dsat, Clamp(da, D.s > 0)) THEN "Timestamp::saturating_add(duration)"
      ELSE ""
 
+\* ---- Time::with() (scope "beyond") ---------------------------------------------------------------------------
+\* r.o = <<h, mi, s, subsec ns>>; r.set / r.val index 1..7: hour, minute, second, millisecond, microsecond,
+\* nanosecond, subsec_nanosecond (which excludes the three before it)
+TWithWhy(r) ==
+  LET Hi == <<23, 59, 59, 999, 999, 999, 999999999>>
+      ok == /\ \A i \in 1..7 : r.set[i] = 1 => r.val[i] \in 0..Hi[i]
+            /\ (r.set[7] = 1 => r.set[4] = 0 /\ r.set[5] = 0 /\ r.set[6] = 0)
+      F(i, orig) == IF r.set[i] = 1 THEN r.val[i] ELSE orig
+      ons == r.o[4]
+      sub == IF r.set[7] = 1 THEN r.val[7]
+             ELSE F(4, ons \div 1000000) * 1000000 + F(5, (ons \div 1000) % 1000) * 1000 + F(6, ons % 1000)
+      exp == <<F(1, r.o[1]), F(2, r.o[2]), F(3, r.o[3]), sub>>
+  IN IF ~ok THEN (IF r.st = "err" THEN "" ELSE "Time::with() accepted an invalid combination")
+     ELSE IF r.st # "ok" THEN "Time::with() refused a valid combination"
+     ELSE IF r.res # exp THEN "Time::with(): not the time the fields denote"
+     ELSE ""
+
 Why(r) ==
   CASE r.op = "date_add"   -> DateAddWhy(r)
+    [] r.op = "twith"      -> TWithWhy(r)
     [] r.op = "ts_add"     -> TsAddWhy(r)
     [] r.op = "dt_add"     -> DtAddWhy(r)
     [] r.op = "dur_add"    -> DurAddWhy(r)
